@@ -32,13 +32,14 @@ func labelName(lv []string) string {
 func (s *StatRec) Add(ctx context.Context, name string, inc float64, lv ...string) {
 	n := labelName(lv)
 
-	s.mu.Lock()
-	s.add[name+"|"+n] += inc
-	s.mu.Unlock()
-
+	// The observer runs first: a goroutine parked in it has not counted its event yet.
 	if s.Hook != nil {
 		s.Hook(ctx, name, n, inc)
 	}
+
+	s.mu.Lock()
+	s.add[name+"|"+n] += inc
+	s.mu.Unlock()
 }
 
 // Set implements cache.StatsTracker.
